@@ -30,6 +30,10 @@ type c04Case struct {
 	Note      string      `json:"note,omitempty"`
 	// Impatient: some senders used contexts that expire while they wait for their turn or while they write; Work
 	// then lists, per sender, only the envelopes whose send reported success
+	// Consumer: how the receiving side takes the envelopes: "" = reads of the four inbound streams; "mux" = an EnvelopeMux
+	// dispatch loop with a handler per kind; "muxrestart" = the same loop cancelled and started again every few
+	// hundred microseconds (an envelope is either handled or still in its stream)
+	Consumer  string `json:"consumer,omitempty"`
 	Impatient bool  `json:"impatient,omitempty"`
 	Attempts  []int `json:"attempts,omitempty"` // per sender: sends attempted
 }
@@ -134,15 +138,92 @@ func consume(r c04Receiver, work [][]c04Item, delay time.Duration, out *[4][][2]
 	}
 }
 
+// consumeMux takes the envelopes through a real EnvelopeMux dispatch loop (ListenServer / ListenClient).
+func consumeMux(srv *lime.ServerChannel, cli *lime.ClientChannel, work [][]c04Item, delay time.Duration, restart bool, out *[4][][2]int, mu *sync.Mutex, stop <-chan struct{}) {
+	rec := func(kind int, id string, payload string) {
+		var t, seq int
+		if _, err := fmt.Sscanf(id, "t%d-%d", &t, &seq); err != nil {
+			t, seq = 999999, 999999
+		} else if t < len(work) && seq < len(work[t]) {
+			if work[t][seq].Kind != kind || len(payload) != work[t][seq].Size || strings.Trim(payload, "x") != "" {
+				seq = 999999
+			}
+		}
+		mu.Lock()
+		out[kind] = append(out[kind], [2]int{t, seq})
+		mu.Unlock()
+		if delay > 0 {
+			time.Sleep(delay)
+		}
+	}
+	mux := &lime.EnvelopeMux{}
+	mux.MessageHandlerFunc(nil, func(ctx context.Context, m *lime.Message, s lime.Sender) error {
+		rec(0, m.ID, docText(m.Content))
+		return nil
+	})
+	mux.NotificationHandlerFunc(nil, func(ctx context.Context, n *lime.Notification) error {
+		rec(1, n.ID, n.Metadata["p"])
+		return nil
+	})
+	mux.RequestCommandHandlerFunc(nil, func(ctx context.Context, q *lime.RequestCommand, s lime.Sender) error {
+		rec(2, q.ID, docText(q.Resource))
+		return nil
+	})
+	mux.ResponseCommandHandlerFunc(nil, func(ctx context.Context, q *lime.ResponseCommand, s lime.Sender) error {
+		rec(3, q.ID, docText(q.Resource))
+		return nil
+	})
+	for round := 0; ; round++ {
+		select {
+		case <-stop:
+			return
+		default:
+		}
+		ctx, cancel := context.WithCancel(context.Background())
+		done := make(chan struct{})
+		go func() {
+			defer close(done)
+			if srv != nil {
+				_ = mux.ListenServer(ctx, srv)
+			} else {
+				_ = mux.ListenClient(ctx, cli)
+			}
+		}()
+		var pause <-chan time.Time
+		if restart {
+			pause = time.After(time.Duration(150+97*(round%7)) * time.Microsecond)
+		}
+		select {
+		case <-stop:
+			cancel()
+			<-done
+			return
+		case <-pause:
+			cancel()
+			<-done
+		case <-done:
+			cancel()
+			if !restart {
+				return
+			}
+			time.Sleep(200 * time.Microsecond)
+		}
+	}
+}
+
 // runC04Pair runs both directions at once on one established pair.
 func runC04Pair(transport string, buffer int, delayUS int, workC2S, workS2C [][]c04Item) ([]*c04Case, error) {
+	return runC04PairWith(transport, buffer, delayUS, workC2S, workS2C, "")
+}
+
+func runC04PairWith(transport string, buffer int, delayUS int, workC2S, workS2C [][]c04Item, consumer string) ([]*c04Case, error) {
 	p, err := EstablishedPair(transport, buffer)
 	if err != nil {
 		return nil, err
 	}
 	defer p.Close()
-	c2s := &c04Case{Transport: transport, Buffer: buffer, Direction: "c2s", DelayUS: delayUS, Work: workC2S}
-	s2c := &c04Case{Transport: transport, Buffer: buffer, Direction: "s2c", DelayUS: delayUS, Work: workS2C}
+	c2s := &c04Case{Transport: transport, Buffer: buffer, Direction: "c2s", DelayUS: delayUS, Work: workC2S, Consumer: consumer}
+	s2c := &c04Case{Transport: transport, Buffer: buffer, Direction: "s2c", DelayUS: delayUS, Work: workS2C, Consumer: consumer}
 	var mu sync.Mutex
 	badWrite := false
 	check := func(b []byte) {
@@ -156,8 +237,13 @@ func runC04Pair(transport string, buffer int, delayUS int, workC2S, workS2C [][]
 	}
 	stop := make(chan struct{})
 	delay := time.Duration(delayUS) * time.Microsecond
-	go consume(p.Server, workC2S, delay, &c2s.Delivered, &mu, stop)
-	go consume(p.Client, workS2C, delay, &s2c.Delivered, &mu, stop)
+	if consumer == "" {
+		go consume(p.Server, workC2S, delay, &c2s.Delivered, &mu, stop)
+		go consume(p.Client, workS2C, delay, &s2c.Delivered, &mu, stop)
+	} else {
+		go consumeMux(p.Server, nil, workC2S, delay, consumer == "muxrestart", &c2s.Delivered, &mu, stop)
+		go consumeMux(nil, p.Client, workS2C, delay, consumer == "muxrestart", &s2c.Delivered, &mu, stop)
+	}
 	var wg sync.WaitGroup
 	sendAll := func(s anySender, work [][]c04Item, c *c04Case) {
 		for t := range work {
@@ -331,7 +417,7 @@ func runC04Impatient(seed int64) (*c04Case, error) {
 func runC04(env *Env) error {
 	env.Header = "From Coq Require Import List.\nImport ListNotations.\nFrom Lime Require Import Base.Res Chan.Pipeline Corr.C04."
 	env.ShardSize = 40
-	env.Rule = "real established pairs over in-process, TCP over an injected connection (Write calls monitored for overlap and for carrying exactly one envelope), TCP and TCP+TLS over loopback, WebSocket and secure WebSocket; PRNG workloads (4 kinds, payloads 0 B to 40 kB (quick) / 200 kB (thorough)), both directions at once, 1-8 sender goroutines per side, channel/transport buffers 0, 1, 2, 64, consumer delays 0-300 us; plus runs over a connection with 8 kB buffers and a slow reader where, next to two patient senders of large envelopes, four senders use contexts that expire after 0.2-2 ms (while waiting for their turn or while writing): exactly the envelopes whose send reported success must arrive, and writes must never overlap. Non-trivial: at least two senders or a buffer of at most one slot. Distinct by (transport, buffer, workload)."
+	env.Rule = "real established pairs over in-process, TCP over an injected connection (Write calls monitored for overlap and for carrying exactly one envelope), TCP and TCP+TLS over loopback, WebSocket and secure WebSocket; PRNG workloads (4 kinds, payloads 0 B to 40 kB (quick) / 200 kB (thorough)), both directions at once, 1-8 sender goroutines per side, channel/transport buffers 0, 1, 2, 64, consumer delays 0-300 us, the receiving side reading its four streams, or running an EnvelopeMux dispatch loop, or a dispatch loop that is cancelled and started again every few hundred microseconds; plus runs over a connection with 8 kB buffers and a slow reader where, next to two patient senders of large envelopes, four senders use contexts that expire after 0.2-2 ms (while waiting for their turn or while writing): exactly the envelopes whose send reported success must arrive, and writes must never overlap. Non-trivial: at least two senders or a buffer of at most one slot. Distinct by (transport, buffer, workload)."
 	rng := env.Rng
 	var rc c04Case
 	if ok, err := env.ReplayDesc(&rc); err != nil {
@@ -346,7 +432,7 @@ func runC04(env *Env) error {
 		}
 		return nil
 	} else if ok {
-		cs, err := runC04Pair(rc.Transport, rc.Buffer, rc.DelayUS, rc.Work, rc.Work)
+		cs, err := runC04PairWith(rc.Transport, rc.Buffer, rc.DelayUS, rc.Work, rc.Work, rc.Consumer)
 		if err != nil {
 			return err
 		}
@@ -399,7 +485,8 @@ func runC04(env *Env) error {
 		senders := 1 + rng.Intn(8)
 		per := 3 + rng.Intn(env.Pick(12, 40))
 		delay := []int{0, 0, 50, 300}[rng.Intn(4)]
-		cs, err := runC04Pair(transport, buffer, delay, genWork(senders, per), genWork(1+rng.Intn(4), per))
+		consumer := []string{"", "mux", "muxrestart"}[(i/2)%3]
+		cs, err := runC04PairWith(transport, buffer, delay, genWork(senders, per), genWork(1+rng.Intn(4), per), consumer)
 		if err != nil {
 			return fmt.Errorf("%s/%d: %w", transport, buffer, err)
 		}
@@ -408,6 +495,7 @@ func runC04(env *Env) error {
 			env.Count("transport=" + c.Transport)
 			env.Count(fmt.Sprintf("buffer=%d", c.Buffer))
 			env.Count(fmt.Sprintf("senders=%d", len(c.Work)))
+			env.Count("consumer=" + map[string]string{"": "streams", "mux": "dispatch-loop", "muxrestart": "dispatch-loop-restarted"}[c.Consumer])
 			if c.Note != "" {
 				env.Count("note=" + strings.TrimSpace(c.Note))
 			}
